@@ -18,22 +18,7 @@ package backup
 
 // A file is its whole content (ghost `whole`) and the part not yet read (`rest`, see io.spec); a hash
 // is the stream written into it (sdata/slen) - Sum is the MD5 of that stream, EncodeToString its hex.
-//@ uninterp func md5b(b Bytes) Bytes
 //@ uninterp func hexS(b Bytes) string
-//@ func md5.New
-//@   assumed
-//@   ensures result != nil && fresh(result)
-//@   modifies nothing
-//@ iface hash.Hash.Reset
-//@   assumed
-//@   params h
-//@   ensures h.slen == 0
-//@   modifies h.slen, h.sdata
-//@ iface hash.Hash.Sum
-//@   assumed
-//@   params h, b
-//@   ensures len(b) == 0 ==> bytesOf(result) == md5b(seqBytes(h.sdata, 0, h.slen)) && len(result) == 16 && fresh(result)      // the only hash in use is MD5 (16 bytes)
-//@   modifies nothing
 //@ func hex.EncodeToString
 //@   assumed
 //@   ensures result == hexS(bytesOf(src))
